@@ -133,7 +133,9 @@ def check_answer(im, req, recurse, strip, eqs, bad, j):
                 except Exception:
                     continue
                 try:
-                    differs = abs(a - b) > 1e-9 * (1 + abs(a))
+                    # the error is measured against the size of the terms (sum of the summands' sizes, product of the
+                    # factors' sizes), not against 1: a tiny constant such as 1.6e-19 must survive the substitution
+                    differs = abs(a - b) > 1e-9 * max(expr_scale(orig.xreplace(env).xreplace(qenv)), abs(a) * 1e-3)
                 except OverflowError:       # values beyond the double range: compare as they are
                     differs = a != b
                 if differs:
@@ -142,6 +144,26 @@ def check_answer(im, req, recurse, strip, eqs, bad, j):
                     break
             if eq.rhs.atoms(im.M.Quantity):
                 bad.append(('unit-stripped equation for %s still contains a Quantity' % eq.lhs, {'op_index': j}))
+
+
+def expr_scale(e):
+    """size of a numeric SymPy expression: |value| for atoms and functions, sum over summands, product over factors"""
+    if e.is_Add:
+        return sum(expr_scale(a) for a in e.args)
+    if e.is_Mul:
+        out = 1.0
+        for a in e.args:
+            out *= expr_scale(a)
+        return out
+    if e.is_Pow and e.exp.is_number:
+        try:
+            return expr_scale(e.base) ** float(e.exp)
+        except Exception:
+            pass
+    try:
+        return abs(complex(e.evalf()))
+    except Exception:
+        return 1.0
 
 
 def run_oracle(case):
